@@ -51,15 +51,26 @@ if h:
                 nometa = set(x.strip() for x in open(p))
             bad = judge(os.path.join(c.work, "impl.obs"), os.path.join(c.work, "model.obs"), "real", nometa)
             rejected = set(k.split(" ")[0] for k, _, _ in bad if k.endswith(" verdict"))
+            # the failing input itself: the bytes of the file (hex) and, if recorded, the program that wrote it
+            wanted = set(k.split(".")[0].split(" ")[0] for k, _, _ in bad[:40])
+            inputs = {}
+            if wanted:
+                for ln in open(os.path.join(c.work, "cases.txt"), errors="replace"):
+                    f = ln.split(" ", 3)
+                    if len(f) >= 3 and f[1] == "F" and f[0] in wanted:
+                        inputs.setdefault(f[0], {})["file_hex"] = f[3].strip() if len(f[3]) < 4000000 else f[3][:4000000] + "...(truncated)"
+                        inputs[f[0]]["encrypted"] = f[2]
+                    elif len(f) >= 3 and f[1] == "P" and f[0].endswith("m") and f[0][:-1] in wanted:
+                        inputs.setdefault(f[0][:-1], {})["program"] = ln.strip()[:200000]
             bad = [b for b in bad if b[0].endswith(" verdict") or b[0].split(".")[0].split(" ")[0] not in rejected]
             for k, want, got in bad[:40]:
                 if k.endswith(" verdict"):
                     sig = "validator-rejects:" + (got.split(" ")[-1] if got != "<missing>" else "no-verdict")
-                    c.fail(sig, "the strict validator rejects a file the Writer produced (%s)" % got, {"case": k.split(" ")[0], "replay": "build/run/C03/cases.txt"})
+                    c.fail(sig, "the strict validator rejects a file the Writer produced (%s)" % got, dict(inputs.get(k.split(" ")[0], {}), case=k.split(" ")[0]))
                 else:
                     c.fail("validator-extracts-different-value",
                            "the validator extracts something else than was written: %s: written %s, extracted %s" % (k, want[:200], got[:200]),
-                           {"case": k.split(".")[0].split(" ")[0], "replay": "build/run/C03/cases.txt"})
+                           dict(inputs.get(k.split(".")[0].split(" ")[0], {}), case=k.split(".")[0].split(" ")[0], reference=k))
             notes = collections.Counter()
             p = os.path.join(c.work, "notes.txt")
             if os.path.exists(p):
